@@ -3,7 +3,7 @@ Every graph object built by `add_edge` calls is consistent: the hypotheses `Good
 `GoodSimple` of the family theorems hold for every `BipG.ofEdges` / `SimpleG.ofEdges` value
 (that is, for every graph the real classes can represent).
 -/
-import Lemmas.FamGraph
+import Lemmas.C01Graph
 namespace Cnfgen.Fam
 open Cnfgen
 
